@@ -1,9 +1,50 @@
-(* C09 — placeholder: the CPython-side specification machine is not yet modelled in Coq.  The
-   property is decided on every run against CPython itself (harness/py/pyref.py) and the decoder /
-   encoder models; see DESIGN.md. *)
+(* C09 — Dict opcodes build Python's dict in PyDict mode and a plain Go map otherwise. *)
 From Coq Require Import List ZArith NArith Bool.
-From OgRek Require Import Base Value Reader Decoder DecoderFacts Encoder EncoderFacts.
-Theorem C09_partial_totality :
-  (forall cfg st inp, fst (fst (decode cfg st inp)) <> Panic /\ fst (fst (decode cfg st inp)) <> OutOfFuel)
-  /\ (forall c v fa, snd (run_w (encode c v) fa) <> EPanic).
-Proof. split; [exact decode_safe|exact encode_no_panic]. Qed.
+From Coq.Strings Require Import Byte.
+From OgRek Require Import Base Value PyEq Dict Reader Decoder Insn PyVM PyVM2 DecoderFacts DictFacts ExecFacts SimFacts.
+Import ListNotations.
+
+(* C09_dict_result_partial: for every instruction list whose result under the CPython machine is a
+   dict object with assignment trace tr (DICT, SETITEM, SETITEMS in any mixture, through the memo or
+   not), Decode returns - unless outcome (2) or (3) of C06 applies - the map / Dict object g whose
+   entries are exactly what assigning the related keys and values vtr, in CPython's order, produces:
+     PyDict on : Dict.Set applied to vtr in order (obj_assign on HDict = Dict.dict_set); by the C08
+                 refinement theorem (DictFacts.history_refines) that is the reference dictionary
+                 under Python equality: one entry per key class, the last value per class;
+     PyDict off: the builtin map after m[k] = v for each pair (Value.gomap_assign, Go key identity),
+                 and if a key cannot be a Go map key Decode fails with an error (outcome 3) rather
+                 than dropping the entry.
+   `_partial` for the same reason as C06 (outcome 2, the recorded finding). *)
+Theorem C09_dict_result_partial : forall pd su prog id tr pstf rest,
+  qload prog = Some (QRef id, pstf) -> qheap_get (q_heap pstf) id = Some (ODict tr) ->
+  let cfg := Build_dconfig pd su None in
+  (exists g st' b' after vtr o,
+      decode cfg init_state (asm_all prog ++ rest) = ((Ok (dict_val pd g), st'), after) /\
+      Forall2 (pair_rel pd su b' (q_heap pstf)) vtr tr /\
+      obj_assign_all (empty_obj pd) vtr = Some o /\ heap_get (d_heap st') g = Some o)
+  \/ (exists i' st' inp',
+        exec cfg 0 (start_state init_state) (asm_all prog ++ rest) i' st' inp' /\ d_stale st' = true)
+  \/ (pd = false /\ exists e st' after, decode cfg init_state (asm_all prog ++ rest) = ((Err e, st'), after)).
+Proof. intros pd su prog id tr pstf rest H Hg. exact (decode_sim_dict pd su prog id tr pstf rest H Hg). Qed.
+Print Assumptions C09_dict_result_partial.
+
+(* in PyDict mode an assignment is never rejected when CPython accepts the key *)
+Theorem C09_pydict_accepts : forall vtr o, kind_ok true o ->
+  Forall (fun kv => hashable (fst kv) = true) vtr -> exists o', obj_assign_all o vtr = Some o'.
+Proof. intros vtr o K F. exact (dict_assign_all_ok true vtr o eq_refl K F). Qed.
+Print Assumptions C09_pydict_accepts.
+
+(* keys that collide under Python equality: 1, 1.0, True -> one entry in PyDict mode *)
+Example C09_collision :
+  match obj_assign_all (HDict []) [(VInt 1, VStr [x61]); (VFloat 4607182418800017408, VStr [x62]); (VBool true, VStr [x63])] with
+  | Some (HDict es) => map snd es
+  | _ => []
+  end = [VStr [x63]].
+Proof. vm_compute. reflexivity. Qed.
+(* ... and three entries in a builtin map *)
+Example C09_go_identity :
+  match obj_assign_all (HMap []) [(VInt 1, VStr [x61]); (VFloat 4607182418800017408, VStr [x62]); (VBool true, VStr [x63])] with
+  | Some (HMap es) => length es
+  | _ => 0%nat
+  end = 3%nat.
+Proof. vm_compute. reflexivity. Qed.
